@@ -701,6 +701,9 @@ def direct_cases(ctx, n):
         if ex.mismatches:
             m = ex.mismatches[0]
             key = None
+            ks, rest_ = classify_mismatches(t.calls, ex.mismatches)
+            if ks and not rest_:
+                key = sorted(ks)[0]
             if kind == "mb_same2" and tuple(r.shape) != tuple(shape):
                 # call site blockwise(align_arrays=False) + trigger: two operands with the same number of blocks along an
                 # axis but different lengths, the shorter one first
@@ -812,15 +815,10 @@ def corr(ctx):
 # direct oracle
 # ----------------------------------------------------------------------------------------------
 
-def attribute(p):
-    """Run the program unfused with the call tracer and attribute every block/region mismatch to a known defect
-    (call site + triggering condition).  -> (set of keys, list of unattributed mismatch records, error)"""
-    from blockshape import ArrayMeta
-    try:
-        vals, calls = build_traced(p)
-    except Exception as e:  # noqa: BLE001
-        return set(), [], "build: " + repr(e)[:100]
-    ex, res, err = run_recorded(vals, optimize=False)
+def classify_mismatches(calls, mismatches):
+    """Attribute block/region mismatches to the listed defects: call site (from the recorded calls) + triggering
+    condition.  -> (set of keys, unattributed mismatch records)"""
+    from blockshape import ArrayMeta, source_metas
     byid = {c["id"]: c for c in calls}
     site = {}   # array name -> key
     zero_site = set()
@@ -832,14 +830,12 @@ def attribute(p):
                 for r in res_:
                     site[r.name] = "qr-short-row-chunk"
         elif fn == "stack":
-            from blockshape import source_metas
             src = source_metas(c["raw_result"]) or []
             if len({s.chunks for s in src if s is not None}) > 1:
                 site[res_.name] = "stack-mixed-chunks"
         elif fn == "blockwise" and kw.get("align_arrays", True):
             # unify_chunks relies on rechunk, and rechunk is a no-op on zero-size arrays (_rechunk_plan): operands of
             # a zero-size elementwise op can keep a chunking that differs from the output's
-            from blockshape import source_metas
             src = [s for s in (source_metas(c["raw_result"]) or []) if s is not None]
             if isinstance(res_, ArrayMeta) and 0 in res_.shape and any(0 in s.shape for s in src):
                 outc = set(res_.chunks)
@@ -851,13 +847,14 @@ def attribute(p):
                 ax = parent["kwargs"].get("axis")
                 if isinstance(ax, int) and ax < 0 and isinstance(res_, ArrayMeta):
                     site[res_.name] = "argreduce-negative-axis"
-    keys, rest = set(), []
+
     def nelems(shape):
         n = 1
         for x in shape:
             n *= x
         return n
-    for m in ex.mismatches:
+    keys, rest = set(), []
+    for m in mismatches:
         k = site.get(m["array"])
         if (k is None and m["array"] in zero_site and isinstance(m["block"], tuple) and isinstance(m["region"], tuple)
                 and nelems(m["block"]) == 0 and nelems(m["region"]) == 0):
@@ -866,6 +863,19 @@ def attribute(p):
             keys.add(k)
         else:
             rest.append(m)
+    return keys, rest
+
+
+def attribute(p):
+    """Run the program unfused with the call tracer and attribute every block/region mismatch to a known defect
+    (call site + triggering condition).  -> (set of keys, list of unattributed mismatch records, error)"""
+    from blockshape import ArrayMeta
+    try:
+        vals, calls = build_traced(p)
+    except Exception as e:  # noqa: BLE001
+        return set(), [], "build: " + repr(e)[:100]
+    ex, res, err = run_recorded(vals, optimize=False)
+    keys, rest = classify_mismatches(calls, ex.mismatches)
     return keys, rest, err
 
 
